@@ -145,6 +145,8 @@ def report_case_violation(ctx, case, result, what):
         except Exception as ex:  # noqa
             model = "model dump failed: %r" % ex
     rp = write_replay(ctx, "V1", what, case, result, {"tags": sorted(tags), "model": model})
+    if any(v.get("replay") == rp for v in ctx.violations):
+        return
     ctx.violations.append({"kind": "V1", "what": what, "replay": rp, "found_input": True})
 
 
@@ -254,9 +256,18 @@ def run_check(P, tier, seed, replay=None):
         # harness-level violations (panics, races, hangs ...)
         for i, w in hv[:5]:
             report_case_violation(ctx, cases[i], res.get(i), w)
-        # V1: the monitor rejects what the implementation did
+        # V1: the monitor rejects what the implementation did. Every rejected case is classified first
+        # (cheap); cases explained by a known finding are recorded, up to three others are shrunk and reported.
+        unknown = []
+        for i in V:
+            tg = set(P.tags(cases[i], res.get(i))) if hasattr(P, "tags") else set()
+            f = classify(ctx, tg)
+            if f:
+                ctx.known_hits.append((f, cases[i]))
+            else:
+                unknown.append(i)
         seen_tags = set()
-        for i in V[:4]:
+        for i in unknown[:3]:
             small = shrink(ctx, cases[i]) if not replay else cases[i]
             r2, _, V2, hv2, _ = ctx.evaluate([small])
             if not V2 and not hv2:
@@ -268,7 +279,7 @@ def run_check(P, tier, seed, replay=None):
             report_case_violation(ctx, small, r2.get(0), "monitor ok_%s rejects the implementation's behaviour" % pid)
         # V2: correspondence differs but monitor is content
         onlyM = [i for i in M if i not in V]
-        if onlyM and not any(v["kind"] == "V1" for v in ctx.violations) and not ctx.known_hits:
+        if onlyM and not any(v["kind"] == "V1" for v in ctx.violations):
             cands, cres, bad = search_failing_input(ctx, [cases[i] for i in onlyM], "corr")
             if bad:
                 small = shrink(ctx, cands[bad[0]])
@@ -276,7 +287,7 @@ def run_check(P, tier, seed, replay=None):
                 if not V2 and not hv2:
                     small, r2 = cands[bad[0]], {0: cres.get(bad[0])}
                 report_case_violation(ctx, small, r2.get(0), "failing input found after correspondence broke")
-            if not any(v["kind"] == "V1" for v in ctx.violations) and not ctx.known_hits:
+            if not any(v["kind"] == "V1" for v in ctx.violations):
                 i = onlyM[0]
                 model = None
                 if hasattr(P, "model_dump"):
@@ -289,8 +300,6 @@ def run_check(P, tier, seed, replay=None):
                                    "mismatching_cases": len(onlyM)})
                 ctx.violations.append({"kind": "V2", "what": "correspondence corr:%s broke on %d cases" % (pid, len(onlyM)),
                                        "replay": rp, "found_input": False})
-        elif onlyM and ctx.known_hits:
-            ctx.notes.append("%d correspondence mismatches attributed to known findings" % len(onlyM))
         # plug-in specific extra phase (concurrency soaks, alloc meters, ...)
         if hasattr(P, "extra") and not replay:
             P.extra(ctx)
